@@ -6,7 +6,115 @@ import (
 	"verifharness/model"
 )
 
+// lawsFail reports whether cmp violates the preorder laws on some ordering of
+// the three elements.
+func lawsFail(cmp func(i, j int) int) bool {
+	for i := 0; i < 3; i++ {
+		if cmp(i, i) != 0 {
+			return true
+		}
+		for j := 0; j < 3; j++ {
+			if cmp(i, j) != -cmp(j, i) {
+				return true
+			}
+			for k := 0; k < 3; k++ {
+				ab, bc, ac := cmp(i, j), cmp(j, k), cmp(i, k)
+				if ab <= 0 && bc <= 0 && (ac > 0 || ((ab < 0 || bc < 0) && ac == 0)) {
+					return true
+				}
+			}
+		}
+	}
+	return false
+}
+
+// fastCycle builds the per-pool version of a reference-cycle class: the
+// reference comparison matrices are computed once per pool.
+func fastCycle(ecoName string, cmps ...func(a, b string) int) func(eco string, pool []string) func(i, j, k int) bool {
+	return func(eco string, pool []string) func(i, j, k int) bool {
+		if eco != ecoName {
+			return nil
+		}
+		n := len(pool)
+		ms := make([][][]int, len(cmps))
+		for c, cmp := range cmps {
+			ms[c] = make([][]int, n)
+			for i := range pool {
+				ms[c][i] = make([]int, n)
+				for j := range pool {
+					ms[c][i][j] = cmp(pool[i], pool[j])
+				}
+			}
+		}
+		return func(i, j, k int) bool {
+			t := [3]int{i, j, k}
+			for _, m := range ms {
+				if lawsFail(func(x, y int) int { return m[t[x]][t[y]] }) {
+					return true
+				}
+			}
+			return false
+		}
+	}
+}
+
 func init() {
+	// maven: ComparableVersion itself (which C12 requires go-univers to follow)
+	// is not transitive, e.g. 1.0.alpha.1 < 1 < 1.sp.1 < 1.0.alpha.1 (checked
+	// with the Maven 3.8.7 jar). Predicate: the reference model of
+	// ComparableVersion breaks the preorder laws on this very triple. It looks
+	// at the inputs through the reference only, never at go-univers' answer.
+	register("maven.reference_cycle", func(c Case) bool {
+		if c.Eco != "maven" {
+			return false
+		}
+		vs := c.Inputs
+		if c.Property != "C01" && len(c.Inputs) > 0 {
+			// first input is a Maven range: its bounds take part in the order too
+			vs = append(mavenBounds(c.Inputs[0]), c.Inputs[1:]...)
+		}
+		for i := 0; i < len(vs); i++ {
+			for j := i + 1; j < len(vs); j++ {
+				for k := j + 1; k < len(vs); k++ {
+					t := [3]string{vs[i], vs[j], vs[k]}
+					if lawsFail(func(x, y int) int { return model.MavenCompare(t[x], t[y]) }) ||
+						lawsFail(func(x, y int) int { return model.MavenCompareAliasAlways(t[x], t[y]) }) {
+						return true
+					}
+				}
+			}
+		}
+		return false
+	})
+	poolFast["maven.reference_cycle"] = fastCycle("maven", model.MavenCompare, model.MavenCompareAliasAlways)
+	poolFast["alpm.reference_cycle"] = fastCycle("alpm", model.AlpmCompare)
+
+	// alpm: pacman's vercmp (which go-univers follows) is itself cyclic on
+	// degenerate inputs with trailing or repeated separators, e.g.
+	// 0. < 0.0 < 0..a < 0. : the separator-length rule and the "a remaining
+	// alpha segment loses against nothing" rule do not compose. Predicate: the
+	// vercmp reference model breaks the preorder laws on a triple of the case.
+	register("alpm.reference_cycle", func(c Case) bool {
+		if c.Eco != "alpm" {
+			return false
+		}
+		vs := c.Inputs
+		if c.Property != "C01" && len(c.Inputs) > 0 {
+			vs = append(comparatorBounds(c.Inputs[0]), c.Inputs[1:]...)
+		}
+		for i := 0; i < len(vs); i++ {
+			for j := i + 1; j < len(vs); j++ {
+				for k := j + 1; k < len(vs); k++ {
+					t := [3]string{vs[i], vs[j], vs[k]}
+					if lawsFail(func(x, y int) int { return model.AlpmCompare(t[x], t[y]) }) {
+						return true
+					}
+				}
+			}
+		}
+		return false
+	})
+
 	// pypi: the local version label is ignored by Compare. Pinned by
 	// pkg/spec/vers/pypi_test.go "different local also excluded per PEP 440"
 	// (vers:pypi/!=1.0.0+local1 must exclude 1.0.0+local2).
@@ -30,4 +138,32 @@ func init() {
 		_, why := model.RpmCompareWhy(c.Inputs[0], c.Inputs[1])
 		return why == "type"
 	})
+}
+
+// mavenBounds extracts the bound versions from a Maven range text
+// ("[a,b)", "(,b]", "[a]", "a").
+func mavenBounds(r string) []string {
+	r = strings.TrimSpace(r)
+	r = strings.TrimLeft(r, "[(")
+	r = strings.TrimRight(r, "])")
+	var out []string
+	for _, p := range strings.Split(r, ",") {
+		if p = strings.TrimSpace(p); p != "" {
+			out = append(out, p)
+		}
+	}
+	return out
+}
+
+// comparatorBounds extracts the bound versions of a space/comma separated
+// comparator range (operators stripped, the keyword "and" dropped).
+func comparatorBounds(r string) []string {
+	var out []string
+	for _, p := range strings.FieldsFunc(r, func(c rune) bool { return c == ' ' || c == ',' || c == '|' || c == '\t' }) {
+		p = strings.TrimLeft(p, "<>=!~^")
+		if p != "" && strings.ToLower(p) != "and" {
+			out = append(out, p)
+		}
+	}
+	return out
 }
